@@ -233,12 +233,19 @@ class EditMedia(HTMLHandlerBase):
     @csrf_token_required(service='files', next_url=next_url)
     def post(self, spk: int, mfid: int) -> flask.Response:
         mf = current_media_file
+        if mf.representation is None:
+            return flask.make_response(
+                f'{html.escape(mf.name)} needs to be indexed before it can be edited', 400)
         current_values: dict[str, str | int] = {
             'track_id': mf.track_id,
             'lang': mf.representation.lang,
         }
+        try:
+            track_id = int(flask.request.form['track_id'], 10)
+        except ValueError:
+            return flask.make_response('Invalid track_id', 400)
         fields: dict[str, str | int] = {
-            'track_id': int(flask.request.form['track_id'], 10),
+            'track_id': track_id,
             'lang': flask.request.form.get('lang', current_values['lang']),
         }
         if fields == current_values:
